@@ -233,7 +233,8 @@ def h_eqn(e):
     e.nontriv()
 
 
-OBJ_LABELS = [('s', 'section', '1'), ('i1', 'item', '1'), ('i2', 'item', '2'), ('f', 'caption', '1'), ('t', 'thmenv', '1'), ('e', 'equation', '1'), ('s2', 'subsection', '1.1')]
+OBJ_LABELS = [('s', 'section', '1'), ('i1', 'item', '1'), ('i2', 'item', '2'), ('f^1', 'caption', '1'), ('t', 'thmenv', '1'), ('e_1', 'equation', '1'), ('s2', 'subsection', '1.1'),
+              ('s3', 'subsubsection', None), ('p1', 'paragraph', None)]          # deeper than the numbering depth: no number, but the label names that unit
 
 
 def h_objects(e):
@@ -244,8 +245,8 @@ def h_objects(e):
     post = ''.join('\\ref{%s}' % n for (n, _, _), b in zip(OBJ_LABELS, before) if not b)
     src = ('\\documentclass{article}\\newtheorem{thm}{Theorem}\\begin{document}' + pre +
            '\\section{A}\\label{s}x\\begin{enumerate}\\item a\\label{i1}\\item b\\label{i2}\\end{enumerate}'
-           '\\begin{figure}\\caption{C}\\label{f}\\end{figure}\\begin{thm}t\\label{t}\\end{thm}\\begin{equation}q\\label{e}\\end{equation}'
-           '\\subsection{B}\\label{s2}y ' + post + '\\end{document}')
+           '\\begin{figure}\\caption{C}\\label{f^1}\\end{figure}\\begin{thm}t\\label{t}\\end{thm}\\begin{equation}q_2\\label{e_1}\\end{equation}'
+           '\\subsection{B}\\label{s2}y \\subsubsection{C}\\label{s3}z \\paragraph{D}\\label{p1}w ' + post + '\\end{document}')
     tex = TeX(doc)
     tex.input(Src(list(src)))
     try:
@@ -274,8 +275,11 @@ def h_objects(e):
             continue
         e.check(t.nodeName == kind, 'label written in a %s is attached to a <%s>' % (kind, t.nodeName), 'wrong-target:' + kind)
         num = getattr(t, 'ref', None)
-        e.check(num is not None and str(num.textContent) == number, 'reference to the %s shows number %r, the object\'s number is %s' % (kind, None if num is None else str(num.textContent), number),
-                'wrong-number:' + kind)
+        if number is None:
+            e.check(num is None, 'the %s lies deeper than the numbering depth but carries number %r' % (kind, None if num is None else str(num.textContent)), 'wrong-number:' + kind)
+        else:
+            e.check(num is not None and str(num.textContent) == number, 'reference to the %s shows number %r, the object\'s number is %s' % (kind, None if num is None else str(num.textContent), number),
+                    'wrong-number:' + kind)
         e.check(t.id == name, 'identifier of the labelled %s is %r' % (kind, t.id), 'object-id')
     ids = [refs[n].idref['label'].id for n, _, _ in OBJ_LABELS if n in refs and refs[n].idref.get('label') is not None]
     e.check(len(ids) == len(set(ids)), 'distinct labels give the same identifier', 'object-id')
